@@ -525,6 +525,34 @@ def design_model(check, tier):
         mc.run(check, "ResolveDesign", "rd%d" % i, consts, DESIGN_INV, emit=None, timeout=3000, xmx="12g")
 
 
+def apalache_inductive(check):
+    """PairingInd.tla: Init => IndInv, IndInv /\\ Next => IndInv', IndInv => Once, discharged symbolically by Apalache
+    (all side / class assignments of 6 descriptor instances at once).  Tool trouble is recorded, never an alarm."""
+    import shutil
+    import subprocess
+    if shutil.which("apalache-mc") is None:
+        check.extra["apalache_inductive"] = "apalache-mc not found"
+        return
+    out = common.scratch("apa-")
+    steps = [("Init", "IndInv", 0), ("IndInit", "IndInv", 1), ("IndInit", "Once", 0)]
+    res = []
+    for init, inv, length in steps:
+        try:
+            p = subprocess.run(["apalache-mc", "check", f"--init={init}", f"--inv={inv}", f"--length={length}",
+                                f"--out-dir={out}", "PairingInd.tla"], cwd=common.SPEC, capture_output=True, text=True, timeout=900)
+            txt = p.stdout + p.stderr
+            if "EXITCODE: OK" in txt:
+                res.append(f"{init}=>{inv}@{length}: OK")
+            elif "EXITCODE: ERROR (12)" in txt or "violat" in txt.lower():
+                res.append(f"{init}=>{inv}@{length}: COUNTEREXAMPLE")
+                check.violation("model:PairingInd_" + inv, {"key": "PairingInd " + init + inv, "model": "PairingInd"}, {"apalache": txt[-1500:]})
+            else:
+                res.append(f"{init}=>{inv}@{length}: tool error")
+        except subprocess.TimeoutExpired:
+            res.append(f"{init}=>{inv}@{length}: timeout")
+    check.extra["apalache_inductive"] = res
+
+
 def run_c03(tier):
     check, recs, verdicts = _config_check("C03", tier, CFG_RULE.format(n=3 if tier == "quick" else 4) +
                                           "; non-trivial = at least one inter-fragment bond in the result",
@@ -532,6 +560,8 @@ def run_c03(tier):
                                           nontrivial=lambda r, v: any(e[3] for e in r["obs"]["fine"]["edges"]))
     check.extra["dedicated_configs"] = sum(1 for v in verdicts if v.get("dedicated"))
     design_model(check, tier)
+    if tier == "thorough":
+        apalache_inductive(check)
     return check.finish()
 
 
